@@ -583,3 +583,100 @@ def describe(g):
     return 'atoms=%s bonds=%s' % (
         sorted((d['element'], d['charge'], d['h']) for _, d in g.nodes(data=True)),
         sorted(d['order'] for _, _, d in g.edges(data=True)))
+
+
+# ----------------------------------------------------------------------------------------
+# shared atoms (squash operator, C10)
+# ----------------------------------------------------------------------------------------
+def build_shared(R, m, owner, share=0.5, kinds=('$', '><'), style=None, feats=None):
+    """like build_cgsmiles, but a random subset of the cut bonds is replaced by sharing one end
+    atom v (home fragment G): v is copied into the neighbouring fragment F together with all of
+    v's bonds into F; both copies carry [!x].  Returns (string, info) or (None, None)."""
+    feats = feats if feats is not None else set()
+    nfr = max(owner) + 1
+    m2 = copy.deepcopy(m)
+    owner2 = list(owner)
+    labels = label_stream()
+    desc = [defaultdict(list) for _ in range(nfr)]
+    base = nx.Graph()
+    base.add_nodes_from(range(nfr))
+
+    def bump(fi, fj):
+        if base.has_edge(fi, fj):
+            base.edges[fi, fj]['order'] += 1
+        else:
+            base.add_edge(fi, fj, order=1)
+    cut = [tuple(sorted(b)) for b in sorted(m.bonds, key=sorted) if owner[min(b)] != owner[max(b)]]
+    R.shuffle(cut)
+    handled = set()
+    nshared = 0
+    copies = {}
+    shared_home = Counter_()
+    for (i, j) in cut:
+        if (i, j) in handled:
+            continue
+        if R.random() < share:
+            u, v = (i, j) if R.random() < .5 else (j, i)
+            F, G = owner[u], owner[v]
+            if (v, F) in copies:
+                continue
+            us = [x for x in m.nbrs(v) if owner[x] == F]
+            if any(tuple(sorted((x, v))) in handled for x in us):
+                continue
+            vp = m2.add_atom(m.atoms[v]['element'], m.atoms[v]['charge'], m.atoms[v]['aromatic'])
+            owner2.append(F)
+            copies[(v, F)] = vp
+            m2.hfix[vp] = m.hcount(v)
+            for x in us:
+                o = m.order(x, v)
+                del m2.bonds[frozenset((x, v))]
+                m2.add_bond(x, vp, o)
+                handled.add(tuple(sorted((x, v))))
+            lab = next(labels)
+            desc[F][vp].append('[!%s]' % lab)
+            desc[G][v].append('[!%s]' % lab)
+            bump(F, G)
+            nshared += 1
+            shared_home[v] += 1
+            if m.atoms[v]['aromatic']:
+                feats.add('shared_aromatic')
+            if m.atoms[v]['charge']:
+                feats.add('shared_charged')
+    for (i, j) in cut:
+        if (i, j) in handled:
+            continue
+        o = m.order(i, j)
+        fi, fj = owner[i], owner[j]
+        lab = next(labels)
+        kind = R.choice(kinds)
+        if kind == '$':
+            di = dj = '[$%s]' % lab
+        else:
+            di, dj = ('[>%s]' % lab, '[<%s]' % lab)
+        desc[fi][i].append(ORDER_SYM[o] + di)
+        desc[fj][j].append(ORDER_SYM[o] + dj)
+        bump(fi, fj)
+        if i in shared_home or j in shared_home:
+            feats.add('shared_with_ordinary_descriptor')
+    if any(o > 4 for _, _, o in base.edges(data='order')):
+        return None, None
+    if shared_home and max(shared_home.values()) >= 2:
+        feats.add('atom_shared_by_3+')
+    for i in range(len(m.atoms)):
+        m2.hfix.setdefault(i, m.hcount(i))
+    names = ['F%d' % f for f in range(nfr)]
+    frs = []
+    for f in range(nfr):
+        atoms = [i for i in range(len(m2.atoms)) if owner2[i] == f]
+        s, pos = render_fragment(R, m2, atoms, desc[f], style)
+        frs.append('#%s=%s' % (names[f], s))
+    R.shuffle(frs)
+    frag_block = '{' + ','.join(frs) + '}'
+    base_s = write_base(R, base, names)
+    return base_s + '.' + frag_block, dict(nshared=nshared, nfr=nfr, natoms=len(m2.atoms), base=base,
+                                           names=names, frag_block=frag_block)
+
+
+def Counter_():
+    from collections import Counter
+    return Counter()
